@@ -119,12 +119,19 @@ def st_multi_op(eps_hint: int,
                 metas: bool = True,
                 busy: bool = False):
     sp = st.booleans() if single_process is None else st.just(single_process)
+    few = st.lists(st_runs(eps_hint, max_runs=3, metas=metas,
+                           min_runs=int(busy), min_count=int(busy)),
+                   min_size=1,
+                   max_size=4)
+    # two-digit writer counts (position 10 and 11 sort before 2 as text)
+    many = st.lists(st_runs(1, max_runs=1, metas=False, min_runs=1,
+                            min_count=1),
+                    min_size=11,
+                    max_size=13)
     return st.fixed_dictionaries({
         "k": st.just("multi"),
-        "writers": st.lists(st_runs(eps_hint, max_runs=3, metas=metas,
-                                    min_runs=int(busy), min_count=int(busy)),
-                            min_size=1,
-                            max_size=4),
+        "writers": st.integers(0, 11).flatmap(
+            lambda w: many if w == 0 else few),
         "sp": sp,
         "reopen": st.booleans(),
         "rseed": ST_RSEED,
@@ -251,6 +258,14 @@ class History:
             bad_at = run[3] if len(run) > 3 else None
             split = dsops.SPLITS[split_idx % 3]
             ids = []
+            if n == 0 and bad_at is not None:
+                # a run that consists of one refused write only
+                records.append((split, {
+                    "id": None,
+                    "session": self.session_no,
+                    "writer": writer,
+                    "meta": meta_of(meta_idx),
+                }))
             for pos in range(n):
                 if bad_at is not None and pos == bad_at % max(n, 1):
                     records.append((split, {
@@ -291,14 +306,18 @@ class History:
             random.seed(op["rseed"])
             np.random.seed(op["rseed"])
             info["rseed"] = op["rseed"]
-        if kind == "filler":
+        if kind in ("filler", "aborted"):
+            # "aborted": the caller's own code raises inside the with-block
+            # after the writes; the filler's exit still runs (the unchanged
+            # library publishes what was written)
             subdir, relation = self.resolve_dir(op["dir"])
             info["dir"] = subdir
             info["relation"] = relation
             concrete, records = self._expand(
                 op["runs"], 0, shared={} if op.get("shared_meta") else None)
             try:
-                dsops.filler_session(self.ds, self.desc, concrete, subdir)
+                dsops.filler_session(self.ds, self.desc, concrete, subdir,
+                                     abort=kind == "aborted")
             except BaseException as exc:  # pylint: disable=broad-except
                 raise SessionFailed(self.session_no, op, exc) from exc
             if subdir is not None and subdir not in self.dirs and any(
